@@ -11,7 +11,7 @@ CONSTANTS
   EnqAcct = FALSE
   HasDeadline = TRUE
   Prime = FALSE
-  MaxPub = 3
+  MaxPub = 2
   MaxRead = 2
   MaxStall = 2
   MaxSweep = 1
